@@ -65,7 +65,78 @@ def check_sig(args):
   return evals, nontrivial, viols, samples
 
 
+class _Scaler:
+  """A class whose method is configured both as a bound method and as the plain function."""
+
+  def __init__(self, factor):
+    self.factor = factor
+
+  def apply(self, x, bias=0):
+    return ('apply', self.factor, x, bias)
+
+  @classmethod
+  def make(cls, factor, tag='t'):
+    return ('make', cls.__name__, factor, tag)
+
+  @staticmethod
+  def plain(a, b=2):
+    return ('plain', a, b)
+
+  def __call__(self, y, z=1):
+    return ('call', self.factor, y, z)
+
+  def __eq__(self, other):
+    return isinstance(other, _Scaler) and other.factor == self.factor
+
+  __hash__ = object.__hash__
+
+
+def callable_kinds_case(_=None):
+  """The same underlying function configured through different callables in one process (bound
+  method of two instances, the plain function taking `self`, classmethod, staticmethod, callable
+  instance, functools.partial), in both orders: build == direct call for each of them."""
+  import functools
+  import itertools
+  viols = []
+  n = 0
+  def variants():
+    s1, s2 = _Scaler(3), _Scaler(5)
+    return [
+        ('bound method', s1.apply, (10,), {'bias': 1}),
+        ('plain function of the method', _Scaler.apply, (s2, 10), {}),
+        ('bound method of another instance', s2.apply, (7,), {}),
+        ('classmethod', _Scaler.make, (4,), {'tag': 'u'}),
+        ('staticmethod', _Scaler.plain, (1,), {}),
+        ('callable instance', s1, (2,), {'z': 9}),
+        ('unbound __call__', _Scaler.__call__, (s2, 2), {}),
+        ('functools.partial of the method', functools.partial(_Scaler.apply, s1), (6,), {}),
+    ]
+  for order in itertools.permutations(range(len(variants())), 2):
+    vs = variants()
+    for i in order:
+      name, fn, args, kwargs = vs[i]
+      n += 1
+      try:
+        want = fn(*args, **kwargs)
+      except Exception as e:   # pylint: disable=broad-except
+        want = ('raises', type(e).__name__)
+      try:
+        cfg = fdl.Config(fn, *args, **kwargs)
+        got = fdl.build(cfg)
+      except Exception as e:   # pylint: disable=broad-except
+        got = ('raises', type(e).__name__)
+      if got != want:
+        viols.append(dict(kinds=[], hasdef=[], store=name, cls='Config', sig='callable-kinds', scenario=name,
+                          what=f'{name} (configured after {vs[order[0]][0] if i != order[0] else "nothing"}): '
+                               f'build gives {got!r}, the direct call {want!r}'))
+  return n, n, viols, [dict(scenario='callable kinds sharing one function', cases=n)]
+
+
 def replay(case):
+  if case.get('sig') == 'callable-kinds':
+    r = callable_kinds_case()
+    m = [v for v in r[2] if v['scenario'] == case.get('scenario')]
+    return m[0]['what'] if m else None
   sig = gen.SigSpec(tuple(case['kinds']), tuple(case['hasdef']))
   cls = getattr(fdl, case.get('cls', 'Config'))
   return check_case(sig, {k: v for k, v in case['store']}, cls)
